@@ -158,9 +158,11 @@ class BuilderMachine(LoggedMachine):
             self.ctx.label('history:' + f)
 
     # ---- one call on the history builder and on a fresh builder
-    def _fly(self, builder, pm, mdesc, codes, apt, sm, departure=None):
+    def _fly(self, builder, pm, mdesc, codes, apt, sm, departure=None, mission=None):
         with fc.airports(apt):
-            mission = fc.make_mission(mdesc, origin=codes[0], destination=codes[1], departure=departure)
+            if mission is None:
+                mission = fc.make_mission(mdesc, origin=codes[0], destination=codes[1], departure=departure)
+            self._last_mission = mission
             try:
                 traj = builder.fly(pm, mission, starting_mass=sm)
             except core.PASS_THROUGH:
@@ -179,7 +181,12 @@ class BuilderMachine(LoggedMachine):
         got = self._fly(self.builder, pm, mdesc, codes, apt, sm, departure)
         snap_got = snapshot(got[1]) if got[0] == 'ok' else None  # taken before anything else is flown
         fresh_builder = fc.make_builder(o, use_weather=self.cfg['weather'])
-        ref = self._fly(fresh_builder, pm, mdesc, codes, apt, sm, departure)
+        # every other call flies the *same* Mission object with the fresh builder (a mission is a value: flying it must
+        # not change it), the others an equal new one
+        same = self._last_mission if self.calls % 2 == 0 else None
+        if same is not None:
+            ctx.label('mission_object:reused')
+        ref = self._fly(fresh_builder, pm, mdesc, codes, apt, sm, departure, mission=same)
         prev = getattr(self, 'prev_result', None)
         if prev is not None:
             # the trajectory returned by the previous successful call must not be altered by this (usually different) flight
